@@ -29,7 +29,7 @@ func VerifCycleTrackerRun(refs [][2]string) (int, error) {
 }
 
 // VerifApplyExtends runs ApplyExtends with a fresh tracker, as loadYamlModel does, for a file named filename.
-func VerifApplyExtends(ctx context.Context, filename string, dict map[string]any, opts *Options) error {
+func VerifApplyExtendsIn(ctx context.Context, filename string, dict map[string]any, opts *Options) error {
 	ctx = context.WithValue(ctx, consts.ComposeFileKey{}, filename)
 	return ApplyExtends(ctx, dict, opts, &cycleTracker{})
 }
